@@ -55,7 +55,7 @@ func init() {
 		mutation{"leave-no-remote-release", "chord/local_membership.go", "		n.state.Set(chord.Active)\n		if err := succ.FinishLeave(false, true); err != nil {\n			n.logger.Warn(\"error releasing leave lock in successor\", zap.Error(err))\n		}\n		return nil, nil, err", "		n.state.Set(chord.Active)\n		return nil, nil, err", "release-on-failure"},
 		mutation{"join-from-any-state", "chord/local_membership.go", "	if curr, ok := n.state.Transition(chord.Active, chord.Transferring); !ok {\n		n.logger.Info(\"Rejecting join request", "	if curr, ok := n.state.Transition(n.state.Get(), chord.Transferring); !ok {\n		n.logger.Info(\"Rejecting join request", "transition-site"},
 		mutation{"release-by-set", "chord/local_membership.go", "		n.logger.Info(\"Join completed, joiner has requested to release membership lock\")\n		if curr, ok := n.state.Transition(chord.Transferring, chord.Active); !ok {", "		n.logger.Info(\"Join completed, joiner has requested to release membership lock\")\n		n.state.Set(chord.Active)\n		if curr, ok := n.state.Transition(chord.Transferring, chord.Active); !ok {", "transition-site"},
-		mutation{"revert-also-when-joined", "chord/local_membership.go", "		if joined {\n			n.predecessor = joiner\n			return\n		}", "		if joined {\n			n.predecessor = joiner\n		}", "release-on-failure"},
+		mutation{"revert-also-when-joined", "chord/local_membership.go", "		if joined {\n			n.predecessor = joiner\n			return\n		}", "		if joined {\n			n.predecessor = joiner\n		}", "set-owner"},
 		mutation{"join-failure-stays-joining", "chord/local_membership.go", "	if err != nil {\n		n.state.Set(chord.Inactive)\n		return err\n	}", "	if err != nil {\n		return err\n	}", "release-on-failure"},
 	)
 	addSelfTests("C13",
